@@ -61,7 +61,7 @@ case "$ID" in
     exit $? ;;
 esac
 case "$ID" in
-  C10|C08|C01|C02|C04|C05|C06)
+  C10|C08|C01|C02|C03|C04|C05|C06|C12)
     # sequential check + concurrent-callers phase: the code under check is instrumented and two threads
     # run it under the scheduler. If the tree cannot be instrumented the plain build runs (phase
     # recorded as not explored).
@@ -71,6 +71,10 @@ case "$ID" in
       C05) FILES="prover/poseidon/poseidon.go" ;;
       C04) FILES="prover/keccak/keccak.go"; INSOPT="-funclevel prover/keccak/keccak.go" ;;
       C06) FILES="prover/circuit_utils.go" ;;
+      # whole circuits defined side by side: Define at statement level, the gadgets at function-entry level
+      C03) FILES="prover/insertion_circuit.go prover/deletion_circuit.go prover/circuit_utils.go"; INSOPT="-funclevel prover/circuit_utils.go" ;;
+      # overlapping builds: the build entry points and Define at statement level (gadgets are atomic steps)
+      C12) FILES="prover/insertion_proving_system.go prover/deletion_proving_system.go prover/insertion_circuit.go prover/deletion_circuit.go" ;;
       C01) FILES="prover/circuit_utils.go prover/insertion_circuit.go prover/poseidon/poseidon.go" ;;
       C02) FILES="prover/circuit_utils.go prover/deletion_circuit.go prover/poseidon/poseidon.go" ;;
     esac
